@@ -49,7 +49,9 @@ PROP = {
                 "half of the race cases): a coarse simulation of the request queue in the generator tells which "
                 "requests are probably pending, those are cancelled (command 6: the client's read()/write() future is dropped) 2 times out "
                 "of 3, holders of guards go on otherwise, new requests of any client follow; 1 in 12 releases is preceded by a cancellation "
-                "that comes too late (skipped); in wbar cases only write requests are cancelled (a cancel command on a pending read is skipped); corpus/C17/cancel.case "
+                "that comes too late (skipped); in wbar cases only write requests are cancelled (a cancel command on a pending read is skipped) and all clients use one cache "
+                "(local or remote: requests of different endpoints piled up behind the full request channel reach the owner in another order "
+                "than invoked, the model has one FIFO); corpus/C17/cancel.case "
                 "holds scripted cancellation cases (guard held / request served / request queued / send waiting when cancelled); every 16th case is the F5 witness script of Props/C17.v (readers on "
                 "the local or a remote cache); every 64th a multi-thread run of the F5 race; a case is non-trivial unless it has at most one "
                 "read and no write; distinct = distinct input",
